@@ -375,6 +375,8 @@ def run(check, mirror, tier):
     C18_handlers.jobs_for(check, mirror, rb_srv, jobs)
     C18_handlers.tck_jobs(check, mirror, MirCrate(mirror, ["server"], overflow_checks=True, enum_crates=("common", "feel", "model", "workspace")), U, jobs, rb_srv)
     run_parallel(check, jobs)
+    # "the definitions endpoints behave as the same sequence of workspace operations": what those operations do is C17's inductive step
+    run_companion(check, mirror, tier, "C17", ["add", "replace", "remove", "clear", "deploy"])
 
 
 KNOWN_PRED = {}
